@@ -7,7 +7,7 @@ name=$1; patch=$2; shift 2
 cd "$(dirname "$0")/.."
 out=seeded/$name
 mkdir -p "$out"
-git -C /tmp/seedrepo checkout -q -- . && git -C /tmp/seedrepo apply "$patch" || { echo "patch does not apply"; exit 2; }
+git -C /tmp/seedrepo checkout -q -- . && git -C /tmp/seedrepo checkout -q --detach $(git -C /repo rev-parse HEAD) && git -C /tmp/seedrepo apply "$patch" || { echo "patch does not apply"; exit 2; }
 for pid in "$@"; do
   echo "== $pid against seeded tree $name" | tee "$out/check_$pid.txt"
   # evidence of the registered checks must not be overwritten by experiment runs
